@@ -1232,14 +1232,21 @@ class Engine:
                 S2 = list(new.start_vertices)
             except Exception:
                 S2 = []
+            # the property speaks of edges; whether vertices not reachable from the root are kept is
+            # not specified, so any vertex set between "reachable" and "all" is taken as given
+            try:
+                got_v = set(new.vertices())
+            except Exception:
+                got_v = None
+            V2 = got_v if (got_v is not None and set(dist) <= got_v <= h_.V) else h_.V
             if ties:
-                return h_.V, short, S2
+                return V2, short, S2
             # edge_ties=False: the result is not unique; read it back, then check it
             try:
                 got = {tup(e) for e in new.edges(with_labels=True)}
             except Exception:
                 got = set()
-            return h_.V, got, S2
+            return V2, got, S2
 
         def check(h_, nh):
             bad = self._edge_mismatch(nh)
@@ -1374,8 +1381,11 @@ class Engine:
 
         def expect(h):
             ls = [e[2] for e in h.E if e[0] == t and e[1] == hd]
-            return ls[0] if len(ls) == 1 else ("raised", "ValueError")
-        return self._q(world, op, vs, lambda a: a.edge_label(t, hd), expect, "C09")
+            return ls[0] if len(ls) == 1 else ("raised", "*")
+        # "will raise an exception if there is not a unique edge": any exception type is accepted
+        return self._q(world, op, vs, lambda a: a.edge_label(t, hd), expect, "C09",
+                       cmp=lambda got, want: (isinstance(got, tuple) and got[:1] == ("raised",))
+                       if want == ("raised", "*") else got == want)
 
     def _do_q_edge_labels(self, world, op, vs):
         t, hd = op["t"], op["hd"]
